@@ -457,6 +457,14 @@ class MultiFit(FitBase):
                         continue
                 _name_is_unique = True
 
+        # validate the name for every member before the first one is touched: a member that has no uncertainty source yet
+        # leaves the 'no errors' chi2 for good as soon as it receives one, removing the source again does not undo that
+        for _fit_index in error_object.fit_indices:
+            _fit = self._fits[_fit_index]
+            _target = _fit._param_model if reference == "model" else _fit.data_container
+            if name in _target._error_dicts:
+                raise ValueError("Cannot create error source with name '%s': fit %s already has an error source with that name!" % (name, _fit_index))
+
         _error_dict = dict(err=error_object, enabled=True, axis=axis, reference_name=reference)
         self._shared_error_dicts[name] = _error_dict
         _targets_done = []
